@@ -161,6 +161,14 @@ class C03(Hist1Prop):
             "per-bin sum of weights and of squares is exactly representable (profiles descending / ascending / alternating / random "
             "/ one huge / huge or tiny outside; signed with non-negative running totals): all paths must equal the exact rational "
             "sums per bin (ND float: no rows outside the bins, see ENABLE_ND_WIDE_FLOAT_MISSED). "
+            "two of every 8 cases run on the library only (kind c03x, no model): stream:caller_arrays -- points / batches / weights "
+            "as float64 numpy arrays (C / F / strided / read-only) whose objects are used again (find_bin(p) then fill(p), fill "
+            "loop over row views, the same array into a second histogram, fill_n at once / in slices / twice, the facade) for "
+            "Histogram1D, HistogramND and the seven transformed classes: no array handed in is modified, every call equals the same "
+            "call on fresh lists, all paths agree; stream:keep_off_routes -- keep_missed (mostly False) through h / h2 / h3 / h1 / "
+            "the constructors with rows outside explicit bins: exact sums per bin on every path, a histogram reporting "
+            "keep_missed False reports nothing missed and is unchanged by an outside value, one reporting True the exact weight "
+            "outside (see ENABLE_KEEPOFF_FCF_ROUTES). "
             "non-trivial = some value inside a bin and some outside or on an edge; distinct = hash of the op list")
     FIELDS = {"bins", "freq", "err2", "under", "over", "total", "keep"}
 
@@ -541,4 +549,588 @@ class C03(Hist1Prop):
             return False
 
 
+
+
+# ============================================================================================ round 7 streams
+# Two classes of cases run directly on the library (kind "c03x", oracle only: the Lean driver has neither the coordinate
+# transforms nor the facades' option handling, so model_case returns None for them).
+#
+#  stream:caller_arrays  -- points / batches / weights handed over as float64 numpy arrays (C / F ordered, strided views,
+#      read-only) whose objects are USED AGAIN: find_bin(p) then fill(p) on the same row view, a fill loop over the rows, the
+#      same array into a second histogram, fill_n(data) at once / in slices / twice, the facade on the same data; for
+#      Histogram1D, HistogramND and all seven transformed classes.  Oracle: after every call every array handed in is bit for
+#      bit what it was; every call returns / every histogram ends as the same calls do on fresh lists made from copies taken
+#      before the first call; all entry paths agree.
+#  stream:keep_off_routes -- keep_missed given (mostly False) to every public construction route with data of which some rows
+#      lie outside explicitly given bins: h / h2 / h3 / h1 facades, HistogramND / Histogram2D / Histogram1D constructors filled
+#      afterwards; compared with the same route called without data and filled by fill / fill_n / first chunk + fill_n.
+#      Oracle: contents and squared errors are the exact sums on every path; a histogram that REPORTS keep_missed == False
+#      reports missed == 0 (1-D: no under/overflow) and is not changed by a value outside; one that reports True reports the
+#      exact weight outside; paths reporting the same flag agree.
+X_EVERY, X_SLOTS = 8, {5: "arrays", 7: "keepoff"}
+
+# On the unchanged library the routes below return a histogram that REPORTS keep_missed == False together with the weight
+# of the outside rows in .missed (HistogramND.__init__ stores `missed` whatever keep_missed is; the facades h / h2 / h3 never
+# get there because they swallow the option):
+#     HistogramND.from_calculate_frequencies(data, binnings, keep_missed=False).missed == k
+#     polar(x, y, radial_bins=e, phi_bins=p, keep_missed=False).missed == k       (keep_missed False)
+#     cylindrical(data, rho_bins=.., phi_bins=.., z_bins=.., keep_missed=False).missed == k
+# while the same histogram created empty and filled reports 0.  Reported, not generated (set True to see it).
+ENABLE_KEEPOFF_FCF_ROUTES = False
+
+X_CLASSES = ["polar", "polar", "spherical", "cylindrical", "radial2", "radial3", "azimuthal", "spherical_surface",
+             "cylindrical_surface", "nd2", "nd3", "h1d"]
+X_LAYOUTS = ["C", "C", "F", "strided", "readonly", "readonly"]
+_R_EDGES = [0.0, 0.5, 1.0, 1.5, 2.0, 3.0, 4.5, 6.0, 8.0]
+_PHI_EDGES = [0.0, 1.0, 2.5, 4.0, 5.5, 6.5]
+_THETA_EDGES = [0.0, 0.75, 1.5, 2.5, 3.25]
+_Z_EDGES = [-2.0, -1.0, 0.0, 1.5, 3.0]
+X_AXES = {"polar": "rp", "spherical": "rtp", "cylindrical": "rpz", "radial2": "r", "radial3": "r", "azimuthal": "p",
+          "spherical_surface": "tp", "cylindrical_surface": "pz", "nd2": "zz", "nd3": "zzz", "h1d": "z"}
+X_SRCDIM = {"polar": 2, "spherical": 3, "cylindrical": 3, "radial2": 2, "radial3": 3, "azimuthal": 2, "spherical_surface": 3,
+            "cylindrical_surface": 3, "nd2": 2, "nd3": 3, "h1d": 1}
+
+
+def _x_edges(rng, axis):
+    import numpy as np
+    if axis == "r":
+        pool = _R_EDGES
+    elif axis == "z":
+        pool = _Z_EDGES
+    elif axis == "p":
+        if rng.random() < 0.4:
+            return [rs(float(x)) for x in np.linspace(0, 2 * np.pi, rng.choice([3, 5, 7]) + 1)]
+        pool = _PHI_EDGES
+    else:
+        if rng.random() < 0.4:
+            return [rs(float(x)) for x in np.linspace(0, np.pi, rng.choice([3, 5]) + 1)]
+        pool = _THETA_EDGES
+    k = rng.randint(2, min(5, len(pool)))
+    a = rng.randint(0, len(pool) - k)
+    return [rs(x) for x in pool[a:a + k]]
+
+
+def _x_coords(cls, p):
+    """the transformed coordinates (ordinary double arithmetic), only used to keep generated points away from bin edges"""
+    import math
+    two_pi = 2 * math.pi
+    if cls == "polar":
+        return [math.hypot(p[1], p[0]), math.atan2(p[1], p[0]) % two_pi]
+    if cls == "radial2":
+        return [math.hypot(p[1], p[0])]
+    if cls == "azimuthal":
+        return [math.atan2(p[1], p[0]) % two_pi]
+    if cls in ("nd2", "nd3", "h1d"):
+        return None
+    x, y, z = p
+    xy = math.hypot(x, y)
+    r, th, ph = math.hypot(xy, z), math.atan2(xy, z) % two_pi, math.atan2(y, x) % two_pi
+    return {"spherical": [r, th, ph], "cylindrical": [xy, ph, z], "radial3": [r], "spherical_surface": [th, ph],
+            "cylindrical_surface": [ph, z]}[cls]
+
+
+def _x_point(rng, cls, edges):
+    d = X_SRCDIM[cls]
+    fe = [[float(Fraction(e)) for e in ax] for ax in edges]
+    for _ in range(200):
+        if rng.random() < 0.7:
+            p = [rng.randint(-12, 12) * 0.25 for _ in range(d)]
+        else:
+            p = [rng.randint(-3 * 1024, 3 * 1024) / 1024.0 for _ in range(d)]
+        co = _x_coords(cls, p)
+        if co is None:
+            return p
+        axes = X_AXES[cls]
+        ok = True
+        for c, ax, kind in zip(co, fe, axes):
+            if kind != "z" and any(abs(c - e) < 1e-9 for e in ax):
+                ok = False      # an angle / radius within rounding of an edge: scalar and vectorised libm may differ there
+        if ok:
+            return p
+    return [0.3125 * (j + 1) for j in range(d)]
+
+
+def x_gen_arrays(rng, cls=None):
+    cls = cls or rng.choice(X_CLASSES)
+    edges = [_x_edges(rng, a) for a in X_AXES[cls]]
+    n = rng.choice([1, 2, 3, 5, 8, 12])
+    rows = [[rs(v) for v in _x_point(rng, cls, edges)] for _ in range(n)]
+    ws = None if rng.random() < 0.5 else [rs(rng.choice([1, 2, 3, 5])) for _ in range(n)]
+    blocks = ["A", "A2", "B", "T", "C", "E"]
+    rng.shuffle(blocks)
+    blocks = blocks[:rng.randint(2, 6)]
+    order = list(range(n)); rng.shuffle(order)
+    cuts = sorted({rng.randint(0, n) for _ in range(rng.randint(0, 3))})
+    src = {"stream": "arrays", "cls": cls, "edges": edges, "rows": rows, "ws": ws, "layout": rng.choice(X_LAYOUTS),
+           "blocks": blocks, "order": order, "cuts": cuts}
+    return x_build(src)
+
+
+def x_gen_keepoff(rng):
+    from .. import gennd
+    routes = ["h2", "h2", "h", "h3", "h1", "HistogramND", "Histogram2D", "Histogram1D", "h2_range"]
+    if ENABLE_KEEPOFF_FCF_ROUTES:
+        routes += ["fcf", "fcf"]
+    route = rng.choice(routes)
+    d = {"h2": 2, "h2_range": 2, "Histogram2D": 2, "h3": 3, "h1": 1, "Histogram1D": 1}.get(route) or rng.choice([2, 2, 3])
+    edges = []
+    for _ in range(d):
+        if route == "h2_range":
+            k, lo, w = rng.randint(1, 4), rng.choice([0.0, -1.0, 0.5]), rng.choice([0.5, 1.0, 2.0])
+            edges.append([rs(lo + j * w) for j in range(k + 1)])
+        else:
+            k = rng.randint(1, 4)
+            e = [rng.choice([-1.0, 0.0, 0.5])]
+            for _ in range(k):
+                e.append(e[-1] + rng.choice([0.25, 0.5, 1.0, 1.5]))
+            edges.append([rs(x) for x in e])
+    n = rng.choice([1, 2, 4, 8, 14, 24])
+    rows = []
+    for _ in range(n):
+        row = []
+        for e in edges:
+            fe = [float(Fraction(x)) for x in e]
+            u = rng.random()
+            if u < 0.12:
+                row.append(fe[0] - rng.choice([0.25, 1.0]))
+            elif u < 0.24:
+                row.append(fe[-1] + rng.choice([0.25, 1.0]))
+            elif u < 0.4:
+                row.append(rng.choice(fe))
+            else:
+                j = rng.randrange(len(fe) - 1)
+                row.append(fe[j] + (fe[j + 1] - fe[j]) * rng.choice([0.25, 0.5, 0.75]))
+        rows.append([rs(v) for v in row])
+    wk = rng.choice(["none", "none", "int", "dyadic"])
+    ws = None if wk == "none" else [rs(rng.choice([1, 2, 3, 4]) if wk == "int" else rng.choice([0.5, 0.25, 1.5, 2.0])) for _ in range(n)]
+    order = list(range(n)); rng.shuffle(order)
+    order2 = list(range(n)); rng.shuffle(order2)
+    src = {"stream": "keepoff", "route": route, "keep": rng.random() < 0.2, "edges": edges, "rows": rows, "ws": ws,
+           "order": order, "batches": partition(rng, order2), "pre": rng.choice([0, 1, n // 2, n]),
+           "arrays": rng.random() < 0.5}
+    return x_build(src)
+
+
+def x_build(src):
+    n = len(src["rows"])
+    if src["stream"] == "arrays":
+        tags = ["stream:caller_arrays", f"cls:{src['cls']}", f"layout:{src['layout']}"] + [f"block:{b}" for b in src["blocks"]]
+        ops = [{"op": "x:" + b} for b in src["blocks"]]
+    else:
+        tags = ["stream:keep_off_routes", f"route:{src['route']}", f"keep_arg:{src['keep']}"]
+        ops = [{"op": "x:construct"}, {"op": "x:fill"}, {"op": "x:fill_n"}, {"op": "x:chunk+fill_n"}]
+    return {"kind": "c03x", "ops": ops, "tags": tags + [f"n:{min(n, 8)}"], "src": src}
+
+
+def _x_snap(h):
+    import numpy as np
+    from ..core import nrs
+    s = {"freq": [nrs(x) for x in np.asarray(h.frequencies).ravel().tolist()],
+         "err2": [nrs(x) for x in np.asarray(h.errors2).ravel().tolist()],
+         "keep": bool(h.keep_missed), "shape": list(h.shape)}
+    if h.ndim == 1 and hasattr(h, "underflow"):
+        s.update(under=nrs(h.underflow), over=nrs(h.overflow), inner=nrs(h.inner_missed))
+    else:
+        s["missed"] = nrs(h.missed)
+    return s
+
+
+def _x_ret(r):
+    if r is None:
+        return None
+    if isinstance(r, tuple):
+        return [int(x) for x in r]
+    return int(r)
+
+
+def _x_factory(cls, edges):
+    import numpy as np
+    from physt import special_histograms as sp
+    from physt import h as fh, h1 as fh1
+    from physt.binnings import NumpyBinning
+    from physt.histogram1d import Histogram1D
+    from physt.histogram_nd import HistogramND
+    E = [np.array([float(Fraction(e)) for e in ax]) for ax in edges]
+    nb = lambda: [NumpyBinning(e.copy()) for e in E]
+    col = lambda D, j: D[:, j]
+    if cls == "polar":
+        return (lambda: sp.PolarHistogram(binnings=nb()),
+                lambda D, W: sp.polar(col(D, 0), col(D, 1), radial_bins=E[0].copy(), phi_bins=E[1].copy(), weights=W))
+    if cls == "spherical":
+        return (lambda: sp.SphericalHistogram(binnings=nb()),
+                lambda D, W: sp.spherical(D, radial_bins=E[0].copy(), theta_bins=E[1].copy(), phi_bins=E[2].copy(), dropna=False, weights=W))
+    if cls == "cylindrical":
+        return (lambda: sp.CylindricalHistogram(binnings=nb()),
+                lambda D, W: sp.cylindrical(D, rho_bins=E[0].copy(), phi_bins=E[1].copy(), z_bins=E[2].copy(), dropna=False, weights=W))
+    if cls == "radial2":
+        return (lambda: sp.RadialHistogram(binning=nb()[0]),
+                lambda D, W: sp.radial(col(D, 0), col(D, 1), bins=E[0].copy(), weights=W))
+    if cls == "radial3":
+        return (lambda: sp.RadialHistogram(binning=nb()[0]),
+                lambda D, W: sp.radial(D, bins=E[0].copy(), weights=W))
+    if cls == "azimuthal":
+        return (lambda: sp.AzimuthalHistogram(binning=nb()[0]),
+                lambda D, W: sp.azimuthal(col(D, 0), col(D, 1), bins=E[0].copy(), weights=W))
+    if cls == "spherical_surface":
+        return (lambda: sp.SphericalSurfaceHistogram(binnings=nb()),
+                lambda D, W: sp.spherical_surface(D, theta_bins=E[0].copy(), phi_bins=E[1].copy(), weights=W))
+    if cls == "cylindrical_surface":
+        return (lambda: sp.CylindricalSurfaceHistogram(binnings=nb()),
+                lambda D, W: sp.cylindrical_surface(D, phi_bins=E[0].copy(), z_bins=E[1].copy(), weights=W))
+    if cls in ("nd2", "nd3"):
+        return (lambda: HistogramND(dimension=len(E), binnings=nb()),
+                lambda D, W: fh(D, [e.copy() for e in E], weights=W))
+    return (lambda: Histogram1D(binning=nb()[0]), lambda D, W: fh1(D, E[0].copy(), weights=W))
+
+
+def x_run_arrays(src):
+    import warnings
+    import numpy as np
+    cls, n = src["cls"], len(src["rows"])
+    d = X_SRCDIM[cls]
+    P = np.array([[float(Fraction(v)) for v in row] for row in src["rows"]], dtype=np.float64).reshape(n, d)
+    PW = None if src["ws"] is None else np.array([float(Fraction(w)) for w in src["ws"]], dtype=np.float64)
+    if cls == "h1d":
+        P = P[:, 0]
+    lay = src["layout"]
+    if lay == "F":
+        D = np.asfortranarray(P.copy())
+    elif lay == "strided":
+        big = np.zeros(P.shape[:1] + tuple(2 * s for s in P.shape[1:]) if P.ndim > 1 else (2 * n,))
+        D = big[:, ::2] if P.ndim > 1 else big[::2]
+        D[...] = P
+    else:
+        D = P.copy()
+    W = None if PW is None else PW.copy()
+    if lay == "readonly":
+        D.setflags(write=False)
+        if W is not None:
+            W.setflags(write=False)
+    watched = [("data", D, P.tobytes())] + ([] if W is None else [("weights", W, PW.tobytes())])
+    empty, facade = _x_factory(cls, src["edges"])
+    cuts = [0] + [c for c in src["cuts"] if 0 < c < n] + [n]
+    events, hists, log = [], {}, []
+
+    def modified():
+        out = []
+        for name, arr, before in watched:
+            if np.ascontiguousarray(arr).tobytes() != before:
+                out.append(f"{name}: was {np.frombuffer(before, dtype=np.float64).tolist()}, is {np.asarray(arr).ravel().tolist()}")
+        return out or None
+
+    def call(label, mode, fn):
+        try:
+            with warnings.catch_warnings():
+                warnings.simplefilter("ignore")
+                r = fn()
+            ev = {"call": label, "ret": r}
+        except Exception as ex:
+            ev = {"call": label, "ret": "REFUSED", "exc": f"{type(ex).__name__}: {ex}"[:200]}
+            log.append(f"{label} [{mode}]: {ev['exc']}")
+        if mode == "arrays":
+            ev["modified"] = modified()
+        return ev
+
+    for mode in ("arrays", "lists"):
+        arr = mode == "arrays"
+        point = (lambda i: D[i]) if arr else (lambda i: P[i].tolist())
+        batch = (lambda a, b: D[a:b]) if arr else (lambda a, b: P[a:b].tolist())
+        wts = (lambda a, b: None if W is None else W[a:b]) if arr else (lambda a, b: None if PW is None else PW[a:b].tolist())
+        wt = (lambda i: 1 if W is None else W[i]) if arr else (lambda i: 1 if PW is None else float(PW[i]))
+        evs = []
+        for blk in src["blocks"]:
+            if blk in ("A", "A2"):
+                h = empty()
+                for i in src["order"]:
+                    p = point(i)            # ONE object for the look-up and the fill that follows
+                    if blk == "A":
+                        evs.append(call(f"{blk}.find_bin(data[{i}])", mode, lambda: _x_ret(h.find_bin(p))))
+                    if W is None:
+                        evs.append(call(f"{blk}.fill(data[{i}])", mode, lambda: _x_ret(h.fill(p))))
+                    else:
+                        evs.append(call(f"{blk}.fill(data[{i}], weight=weights[{i}])", mode, lambda: _x_ret(h.fill(p, weight=wt(i)))))
+            elif blk == "B":
+                h = empty()
+                evs.append(call("B.fill_n(data, weights)", mode, lambda: h.fill_n(batch(0, n), weights=wts(0, n))))
+            elif blk == "T":
+                h = empty()
+                for _ in range(2):
+                    evs.append(call("T.fill_n(data, weights) [one of two]", mode, lambda: h.fill_n(batch(0, n), weights=wts(0, n))))
+            elif blk == "C":
+                h = empty()
+                for a, b in zip(cuts, cuts[1:]):
+                    evs.append(call(f"C.fill_n(data[{a}:{b}], weights[{a}:{b}])", mode, lambda: h.fill_n(batch(a, b), weights=wts(a, b))))
+            else:
+                box = {}
+                def build():
+                    box["h"] = facade(batch(0, n) if arr else np.array(batch(0, n), dtype=np.float64).reshape(P.shape), wts(0, n))
+                evs.append(call(f"E = facade {cls}(data, weights)", mode, build))
+                h = box.get("h")
+            hists[f"{blk}:{mode}"] = None if h is None else _x_snap(h)
+        events.append(evs)
+    return {"outs": [], "log": log, "x": {"events": events[0], "ref_events": events[1], "hists": hists}}
+
+
+def x_oracle_arrays(case, io):
+    src, x = case["src"], io["x"]
+    fails = []
+    for ev, ref in zip(x["events"], x["ref_events"]):
+        if ref["ret"] == "REFUSED":
+            continue            # the call is refused on plain lists as well: not about arrays
+        if ev.get("modified"):
+            fails.append(f"input_modified: {ev['call']} changed an array handed in by the caller ({src['cls']}, layout {src['layout']}): "
+                         + "; ".join(ev["modified"])[:400])
+            break
+        if ev["ret"] == "REFUSED":
+            fails.append(f"array_refused: {ev['call']} is refused for a float64 array (layout {src['layout']}) but accepted for the "
+                         f"same numbers in a list: {ev.get('exc')}")
+            break
+        if ev["ret"] != ref["ret"]:
+            what = "find_bin_index" if "find_bin" in ev["call"] else "fill_ret"
+            fails.append(f"{what}: {ev['call']} on the caller's array returned {ev['ret']}, on a fresh copy of the same point {ref['ret']}")
+    evs = x["events"]
+    for k in range(len(evs) - 1):
+        if ".find_bin(" in evs[k]["call"] and evs[k]["ret"] != evs[k + 1]["ret"] and "REFUSED" not in (evs[k]["ret"], evs[k + 1]["ret"]):
+            fails.append(f"fill_ret: {evs[k + 1]['call']} returned {evs[k + 1]['ret']} but find_bin on the same array object said {evs[k]['ret']}")
+    H = x["hists"]
+    keys = ("freq", "err2", "missed", "under", "over", "inner")
+    for blk in src["blocks"]:
+        a, r = H.get(f"{blk}:arrays"), H.get(f"{blk}:lists")
+        if a is None or r is None:
+            continue
+        for f in keys:
+            if a.get(f) != r.get(f):
+                fails.append(f"paths_{f}: path {blk} fed with the caller's arrays gives {a.get(f)}, fed with fresh copies of the same "
+                             f"numbers {r.get(f)}")
+    single = [b for b in src["blocks"] if b != "T" and H.get(f"{b}:arrays") is not None]
+    for b in single[1:]:
+        a, r = H[f"{b}:arrays"], H[f"{single[0]}:arrays"]
+        for f in keys:
+            if a.get(f) != r.get(f):
+                fails.append(f"paths_{f}: path {b} gives {a.get(f)}, path {single[0]} gives {r.get(f)} (same data, same arrays)")
+    return fails[:6]
+
+
+def _x_keepoff_make(src, rows_idx, with_data):
+    """one histogram by the route of the case: from the rows given (with_data) or without data"""
+    import numpy as np
+    import physt
+    from physt.binnings import static_binning
+    from physt.histogram1d import Histogram1D
+    from physt.histogram_nd import HistogramND, Histogram2D
+    route, keep = src["route"], src["keep"]
+    E = [np.array([float(Fraction(e)) for e in ax]) for ax in src["edges"]]
+    d = len(E)
+    P = np.array([[float(Fraction(v)) for v in src["rows"][i]] for i in rows_idx], dtype=np.float64).reshape(len(rows_idx), d)
+    W = None if src["ws"] is None else np.array([float(Fraction(src["ws"][i])) for i in rows_idx], dtype=np.float64)
+    if not src.get("arrays"):
+        W = None if W is None else W.tolist()
+    sb = lambda: [static_binning(bins=e.copy()) for e in E]
+    if route in ("h", "h2", "h3", "h1", "h2_range", "fcf"):
+        if route == "h1":
+            return physt.h1(P[:, 0] if with_data else None, E[0].copy(), weights=W if with_data else None, keep_missed=keep)
+        if route == "fcf":
+            return HistogramND.from_calculate_frequencies(P if with_data else None, sb(), weights=W if with_data else None, keep_missed=keep)
+        kw = {"weights": W} if with_data else {}
+        if route == "h2_range":
+            bins = [len(e) - 1 for e in E]
+            kw["range"] = [(float(e[0]), float(e[-1])) for e in E]
+        else:
+            bins = [e.copy() for e in E]
+        if route == "h":
+            return physt.h(P if with_data else None, bins, dim=d, keep_missed=keep, **kw)
+        if route == "h3":
+            return physt.h3(P if with_data else None, bins, keep_missed=keep, **kw)
+        if with_data:
+            return physt.h2(P[:, 0], P[:, 1], bins, keep_missed=keep, **kw)
+        return physt.h2(None, None, bins, keep_missed=keep, **kw)
+    # constructors: always created empty, the rows (if any) entered by one fill_n
+    if route == "Histogram1D":
+        h = Histogram1D(binning=sb()[0], keep_missed=keep)
+        if with_data:
+            h.fill_n(P[:, 0], weights=W)
+        return h
+    h = Histogram2D(binnings=sb(), keep_missed=keep) if route == "Histogram2D" else HistogramND(dimension=d, binnings=sb(), keep_missed=keep)
+    if with_data:
+        h.fill_n(P, weights=W)
+    return h
+
+
+def x_run_keepoff(src):
+    import warnings
+    import numpy as np
+    n = len(src["rows"])
+    one_d = len(src["edges"]) == 1
+    log, hists, steps = [], {}, []
+    val = lambda i: float(Fraction(src["rows"][i][0])) if one_d else [float(Fraction(v)) for v in src["rows"][i]]
+    wt = lambda i: 1 if src["ws"] is None else float(Fraction(src["ws"][i]))
+
+    def fill_n(h, idx):
+        P = np.array([val(i) for i in idx], dtype=np.float64).reshape((len(idx),) if one_d else (len(idx), len(src["edges"])))
+        W = None if src["ws"] is None else np.array([wt(i) for i in idx], dtype=np.float64)
+        if not src.get("arrays") and len(idx):       # (an empty list has no second dimension: empty batches stay (0, d) arrays)
+            P, W = P.tolist(), (None if W is None else W.tolist())
+        h.fill_n(P, weights=W)
+
+    with warnings.catch_warnings():
+        warnings.simplefilter("ignore")
+        try:
+            hists["construction at once"] = _x_snap(_x_keepoff_make(src, list(range(n)), True))
+            h = _x_keepoff_make(src, [], False)
+            hists["created without data"] = _x_snap(h)
+            for i in src["order"]:
+                before = _x_snap(h)
+                r = _x_ret(h.fill(val(i), weight=wt(i)) if src["ws"] is not None else h.fill(val(i)))
+                steps.append({"i": i, "ret": r, "before": before, "after": _x_snap(h)})
+            hists["fill one at a time"] = _x_snap(h)
+            h = _x_keepoff_make(src, [], False)
+            for bt in src["batches"]:
+                fill_n(h, bt)
+            hists["fill_n in batches"] = _x_snap(h)
+            p = min(src["pre"], n)
+            h = _x_keepoff_make(src, list(range(p)), True)
+            fill_n(h, list(range(p, n)))
+            hists["construction from a first chunk + fill_n"] = _x_snap(h)
+        except Exception as ex:
+            import traceback
+            log.append(f"{type(ex).__name__}: {ex}"[:300] + " @ " + traceback.format_exc()[-300:])
+    return {"outs": [], "log": log, "x": {"hists": hists, "steps": steps}}
+
+
+def x_oracle_keepoff(case, io):
+    from .. import gennd
+    src, x = case["src"], io["x"]
+    if io["log"]:
+        return [f"refused_valid: a valid call was refused (route {src['route']}, keep_missed={src['keep']}): " + io["log"][0]]
+    H = x["hists"]
+    one_d = len(src["edges"]) == 1
+    axes = [([(Fraction(a), Fraction(b)) for a, b in zip(ax, ax[1:])], True) for ax in src["edges"]]
+    ws = [Fraction(1)] * len(src["rows"]) if src["ws"] is None else [Fraction(w) for w in src["ws"]]
+    places = {}
+    for row, w in zip(src["rows"], ws):
+        if one_d:
+            key = region1(axes[0][0], Fraction(row[0]))
+            key = (key,) if isinstance(key, int) and 0 <= key < len(axes[0][0]) else ("under" if key == -1 else "over")
+        else:
+            key = gennd.cell_of(axes, [Fraction(v) for v in row]) or "missed"
+        places.setdefault(key, []).append(w)
+    tot = lambda k, sq=False: rs(sum(((w * w if sq else w) for w in places.get(k, [])), Fraction(0)))
+    fails = []
+    for name, s in H.items():
+        if name == "created without data":
+            if any(Fraction(v) != 0 for v in s["freq"]) or s.get("missed") not in (None, "0"):
+                fails.append(f"paths_freq: the histogram created without data is not empty: {s}")
+            continue
+        cells = gennd.unravel(s["shape"])
+        for f, sq in (("freq", False), ("err2", True)):
+            exp = [tot(c, sq) for c in cells]
+            if [rs(Fraction(v)) for v in s[f]] != exp:
+                fails.append(f"paths_{f}: {name} (route {src['route']}, keep_missed={src['keep']} asked, {s['keep']} reported) gives "
+                             f"{s[f]}, the exact sums per bin are {exp}")
+        outside = [("under", "under"), ("over", "over")] if one_d else [("missed", "missed")]
+        for f, k in outside:
+            got = s.get(f)
+            if s["keep"]:
+                if got is None or Fraction(got) != Fraction(tot(k)):
+                    fails.append(f"paths_{f}: {name} (route {src['route']}) reports keep_missed=True and {f}={got}, the weight of the "
+                                 f"rows outside is {tot(k)}")
+            elif got is not None and Fraction(got) != 0:
+                fails.append(f"keep_off_missed: {name} (route {src['route']}, keep_missed={src['keep']} asked) reports keep_missed=False "
+                             f"and {f}={got}: with tracking switched off values outside change nothing"
+                             + (f" (the paths that fill report {[(m, t.get(f)) for m, t in H.items() if m != name][:4]})"))
+    flags = {s["keep"] for s in H.values()}
+    if len(flags) > 1:
+        fails.append(f"paths_keep: the same route with keep_missed={src['keep']} reports different keep_missed flags: "
+                     f"{[(m, s['keep']) for m, s in H.items()]}")
+    for st in x["steps"]:
+        b, a = st["before"], st["after"]
+        row = src["rows"][st["i"]]
+        out = (region1(axes[0][0], Fraction(row[0])) in (-1, len(axes[0][0]))) if one_d else gennd.cell_of(axes, [Fraction(v) for v in row]) is None
+        if out and not b["keep"] and a != b:
+            fails.append(f"keep_off_changed: fill({row}) outside the bins changed a histogram that reports keep_missed=False: {b} -> {a}")
+    return fails[:6]
+
+
+def _c03x_patch():
+    base = {k: getattr(C03, k) for k in ("gen_case", "run_impl", "model_case", "oracle", "tags", "nontrivial", "shrink_candidates",
+                                          "neighbours", "fields_for")}
+    isx = lambda case: case.get("kind") == "c03x"
+
+    def gen_case(self, rng, k, tier):
+        slot = X_SLOTS.get(k % X_EVERY)
+        if slot == "arrays":
+            return x_gen_arrays(rng)
+        if slot == "keepoff":
+            return x_gen_keepoff(rng)
+        return base["gen_case"](self, rng, k, tier)
+
+    def run_impl(self, case):
+        if isx(case):
+            return x_run_arrays(case["src"]) if case["src"]["stream"] == "arrays" else x_run_keepoff(case["src"])
+        return Hist1Prop.run_impl(self, case)
+
+    def model_case(self, case, io):
+        return None if isx(case) else Hist1Prop.model_case(self, case, io)
+
+    def oracle(self, case, io):
+        if isx(case):
+            return x_oracle_arrays(case, io) if case["src"]["stream"] == "arrays" else x_oracle_keepoff(case, io)
+        return base["oracle"](self, case, io)
+
+    def tags(self, case, io):
+        if isx(case):
+            t = [o["op"] for o in case["ops"]] + list(case["tags"])
+            for s in (io.get("x", {}).get("hists") or {}).values():
+                if s and case["src"]["stream"] == "keepoff":
+                    t.append(f"reported_keep:{s['keep']}")
+                    break
+            return t
+        return Hist1Prop.tags(self, case, io)
+
+    def nontrivial(self, case, io):
+        if isx(case):
+            hs = [s for s in (io.get("x", {}).get("hists") or {}).values() if s]
+            return any(Fraction(v) != 0 for s in hs for v in s["freq"] if v is not None)
+        return base["nontrivial"](self, case, io)
+
+    def shrink_candidates(self, case):
+        if not isx(case):
+            yield from base["shrink_candidates"](self, case)
+            return
+        import copy
+        src = case["src"]
+        n = len(src["rows"])
+        if src["stream"] == "arrays":
+            for j in range(len(src["blocks"])):
+                if len(src["blocks"]) > 1:
+                    s2 = copy.deepcopy(src)
+                    del s2["blocks"][j]
+                    yield x_build(s2)
+        for i in range(n):
+            if n <= 1:
+                break
+            s2 = copy.deepcopy(src)
+            del s2["rows"][i]
+            if s2["ws"] is not None:
+                del s2["ws"][i]
+            ren = lambda j: j if j < i else j - 1
+            s2["order"] = [ren(j) for j in s2["order"] if j != i]
+            if "batches" in s2:
+                s2["batches"] = [[ren(j) for j in bt if j != i] for bt in s2["batches"]]
+                s2["pre"] = min(s2["pre"], n - 1)
+            if "cuts" in s2:
+                s2["cuts"] = sorted({min(c, n - 1) for c in s2["cuts"]})
+            yield x_build(s2)
+
+    def neighbours(self, case):
+        if isx(case):
+            return []
+        return base["neighbours"](self, case)
+
+    for name, fn in (("gen_case", gen_case), ("run_impl", run_impl), ("model_case", model_case), ("oracle", oracle), ("tags", tags),
+                     ("nontrivial", nontrivial), ("shrink_candidates", shrink_candidates), ("neighbours", neighbours)):
+        setattr(C03, name, fn)
+
+
+_c03x_patch()
 PROP = C03()
